@@ -645,3 +645,526 @@ def perturb_incs(rng, incs, grid=1):
         i = rng.randrange(len(incs))
         incs[i] = rng.choice([0, -rng.randint(1, 100) * grid, rng.randint(1, 20) * grid])
     return tuple(incs)
+
+
+# --------------------------------------------------------------------------
+# raw-float streams (oracle only: the Int-time model cannot speak about rounding)
+#
+# The property is about floats as the library computes them.  These cases use non-dyadic readings / durations /
+# tocks, so double rounding matters, and are judged by a float reference written from the property text:
+# a timer started at clock reading r with duration d has start = r, stop = r + d; a reading below the last one
+# is a retrograde by delta = r - last and moves start, stop and last by delta; expired is `latest >= stop`,
+# elapsed `latest - start`, remaining `stop - latest`; restart begins at the previous stop with the same duration.
+
+class FClock:
+    def __init__(self, base, incs, ovs=()):
+        self.c = float(base)
+        self.incs = list(incs)
+        self.ovs = list(ovs)
+        self.i = 0
+        self.j = 0
+        self.tag = "t"
+        self.log = []
+
+    def time(self):
+        if self.i >= len(self.incs):
+            raise Exhausted()
+        self.c = self.c + self.incs[self.i]
+        self.i += 1
+        self.log.append((self.tag, self.c))
+        return self.c
+
+    def sleep(self, d):
+        if d < 0:
+            raise ValueError("sleep length must be non-negative")
+        ov = self.ovs[self.j] if self.j < len(self.ovs) else 0.0
+        self.j += 1
+        self.log.append(("s", d))
+        self.c = self.c + d + ov
+
+
+class FRef:
+    """float reference timer (see the comment above)"""
+
+    def __init__(self, r, dur):
+        self.start = self.last = r
+        self.stop = r + dur
+
+    def see(self, r):
+        delta = r - self.last
+        if delta < 0:
+            self.start += delta
+            self.stop += delta
+        self.last += delta
+        return self.last
+
+    def restart(self, dur=None):
+        d = dur if dur is not None else self.stop - self.start
+        self.start = self.stop
+        self.stop = self.start + d
+
+    def begin(self, r, dur=None):
+        d = dur if dur is not None else self.stop - self.start
+        self.start = self.last = r
+        self.stop = r + d
+
+
+def run_fmono(case):
+    from hio.help import timing
+    _, base, incs, dur, ops = case
+    clock = FClock(base, incs)
+    out = []
+    with patched(clock):
+        try:
+            tm = timing.MonoTimer(duration=dur)
+            out.append(("new", clock.i))
+            for op in ops:
+                k = op[0]
+                if k in ("elapsed", "remaining", "expired", "latest", "duration"):
+                    v = getattr(tm, k)
+                elif k == "start":
+                    v = tm.start(duration=op[1])
+                elif k == "restart":
+                    v = tm.restart(duration=op[1])
+                else:
+                    raise core.Infra(f"bad fmono op {op!r}")
+                out.append((v, clock.i))
+        except Exhausted:
+            out.append(("exhausted",))
+    return wrapF(tuple(out))
+
+
+def oracle_fmono(case, obs):
+    _, base, incs, dur, ops = case
+    obs = unwrapF(obs)
+    bad = set()
+    rs, c = [], float(base)
+    for d in incs:
+        c = c + d
+        rs.append(c)
+    if not obs or obs[0] == ("exhausted",):
+        return []
+    n0 = obs[0][1]
+    if n0 < 1:
+        return ["fmono-no-reading-at-construction"]
+    ref = FRef(rs[n0 - 1], float(dur))
+    seen = n0
+    last_el, was_exp = None, False
+    for op, o in zip(ops, obs[1:]):
+        if o == ("exhausted",):
+            break
+        v, ni = o
+        k = op[0]
+        if k == "start":
+            if ni != seen + 1:
+                bad.add("fmono-readings-per-op")
+                break
+            ref.begin(rs[ni - 1], op[1])
+            seen = ni
+            if v != ref.start:
+                bad.add("fmono-start-return")
+            last_el, was_exp = None, False
+            continue
+        if k == "restart":
+            ref.restart(op[1])
+            if v != ref.start:
+                bad.add("fmono-restart-not-at-previous-stop")
+            last_el, was_exp = None, False
+            continue
+        if k == "duration":
+            if v != ref.stop - ref.start:
+                bad.add("fmono-duration")
+            continue
+        if ni != seen + 1:
+            bad.add("fmono-readings-per-op")
+            break
+        ref.see(rs[ni - 1])
+        seen = ni
+        if k == "elapsed":
+            if v != ref.last - ref.start:
+                bad.add("fmono-elapsed-not-latest-minus-start")
+            if last_el is not None and v < last_el:
+                bad.add("fmono-elapsed-decreased")
+            last_el = v
+        elif k == "remaining":
+            if v != ref.stop - ref.last:
+                bad.add("fmono-remaining-not-stop-minus-latest")
+        elif k == "expired":
+            if v is not (ref.last >= ref.stop):
+                bad.add("fmono-expired-not-exactly-latest>=stop")
+            if was_exp and v is False:
+                bad.add("fmono-expired-reverted")
+            was_exp = was_exp or v is True
+        elif k == "latest":
+            if v != ref.last:
+                bad.add("fmono-latest")
+    return sorted(bad)
+
+
+FVALS = [0.1, 0.3, 0.7, 1.1, 0.05, 0.01, 0.03, 1 / 3, 0.2, 0.123456, 2.5, 1e-3, 4.23]
+
+
+def gen_fmono(rng):
+    import math
+    pick = lambda: rng.choice(FVALS) * rng.choice([1, 1, 3, 7, 0.1])
+    base = rng.choice([0.0, 0.1, 1000.7, 1700000000.123, 5e-3])
+    dur = pick()
+    ops = []
+    for _ in range(rng.choice([1, 2, 3, 5, 8, 12])):
+        r = rng.random()
+        if r < 0.2:
+            ops.append(("elapsed",))
+        elif r < 0.4:
+            ops.append(("remaining",))
+        elif r < 0.7:
+            ops.append(("expired",))
+        elif r < 0.75:
+            ops.append(("latest",))
+        elif r < 0.8:
+            ops.append(("duration",))
+        elif r < 0.93:
+            ops.append(("restart", rng.choice([None, None, None, pick()])))
+        else:
+            ops.append(("start", rng.choice([None, pick()])))
+    # readings: aim at the deadline and its float neighbours, with backward steps in between
+    incs = [rng.choice([0.0, pick() * 0.01]), rng.choice([0.0, pick() * 0.01, -pick()])]
+    c = base + incs[0] + incs[1]
+    start, stop = c, c + dur
+    for op in ops:
+        if op[0] == "restart":
+            d = op[1] if op[1] is not None else stop - start
+            start, stop = stop, stop + d
+        elif op[0] in ("duration",):
+            continue
+        else:
+            q = rng.random()
+            if q < 0.4:
+                target = rng.choice([stop, math.nextafter(stop, -1e300), math.nextafter(stop, 1e300), start + (stop - start)])
+                inc = target - c
+            elif q < 0.6:
+                inc = -pick() * rng.choice([0.1, 1, 1])
+            elif q < 0.7:
+                inc = 0.0
+            else:
+                inc = pick() * rng.choice([0.01, 0.1, 1])
+            incs.append(inc)
+            c2 = c + inc
+            if c2 < c:
+                start += c2 - c
+                stop += c2 - c
+            c = c2
+            if op[0] == "start":
+                d = op[1] if op[1] is not None else stop - start
+                start, stop = c, c + d
+    if rng.random() < 0.3:
+        # aim: timer started on a clock below zero, shown a reading a little before its stop and then the float
+        # neighbours of the stop itself (see gen_fpace)
+        base = -rng.choice(FVALS) * rng.choice([1, 0.1, 0.5])
+        dur = -base + rng.choice(FVALS) * rng.choice([1, 0.1, 0.5, 3])
+        stop = base + dur
+        below = math.nextafter(stop, -math.inf)
+        near = stop - dur * rng.choice([0.01, 0.001, 0.1])
+        seq = [near] + [rng.choice([below, below, stop, math.nextafter(below, -math.inf), math.nextafter(stop, math.inf)]) for _ in range(3)]
+        incs, c, ops = [0.0, 0.0], base, []
+        for t in seq:
+            if c + (t - c) != t:
+                break
+            incs.append(t - c)
+            c = t
+            ops.append((rng.choice(["expired", "expired", "remaining", "elapsed"]),))
+    return ("fmono", base, tuple(incs), dur, tuple(ops))
+
+
+def run_fpace(case):
+    from hio.base import doing
+    _, base, incs, ovs, tock0, tock1, n = case
+    clock = FClock(base, incs, ovs)
+
+    class LDoist(doing.Doist):
+        def recur(self, *pa, **kwa):
+            clock.log.append(("c", self._cyc))
+            self._cyc += 1
+            return super().recur(*pa, **kwa)
+
+    def doer(tymth=None, tock=0.0, **kw):
+        k = 0
+        while True:
+            yield
+            k += 1
+            if k >= n:
+                return True
+    doer.tock = 0.0
+    doer.done = None
+    doer.opts = {}
+
+    end = "done"
+    tock_run = None
+    i_run = None
+    with patched(clock):
+        try:
+            d = LDoist(real=True, tock=tock0)
+            d._cyc = 0
+            if tock1 is not None:
+                d.tock = tock1
+            tock_run = d.tock
+            i_run = len(clock.log)
+            d.do(doers=[doer])
+        except Exhausted:
+            end = "exhausted"
+        except Exception as ex:
+            end = "raised-" + type(ex).__name__
+    if i_run is None:
+        return ((), end, None)
+    return wrapF((tuple(clock.log[i_run:]), end, tock_run))
+
+
+def oracle_fpace(case, obs):
+    """C07 with floats as the library computes them, tolerance-free: the run's first reading r0 starts a timer of
+    duration tock (the scheduler's tock at do()); cycle k >= 1 begins only when the timer, shown exactly the readings
+    the run made, has reached its float-accumulated deadline (latest >= stop); then the next period begins at the previous
+    stop; no sleep request exceeds the time left (stop - latest)."""
+    run, end, tock = unwrapF(obs)
+    bad = set()
+    if tock is None:
+        return []
+    ref = None
+    reached = False
+    for ev in run:
+        if ev[0] == "t":
+            if ref is None:
+                ref = FRef(ev[1], float(tock))
+            else:
+                ref.see(ev[1])
+                reached = ref.last >= ref.stop
+        elif ev[0] == "c":
+            if ev[1] >= 1:
+                if ref is None or not reached:
+                    bad.add("never-early-float")
+                    return sorted(bad)
+                ref.restart()
+                reached = False
+        elif ev[0] == "s":
+            if ref is None:
+                bad.add("sleep-before-run")
+            elif ev[1] > max(0.0, ref.stop - ref.last):
+                bad.add("lossless-sleeps-past-deadline-float")
+    if end.startswith("raised"):
+        bad.add("run-raised")
+    return sorted(bad)
+
+
+def gen_fpace(rng):
+    import math
+    pick = lambda: rng.choice(FVALS) * rng.choice([1, 1, 3, 0.1])
+    base = rng.choice([0.0, 0.1, 0.01, 0.003, -0.05, -0.3, -1e-3, 4.23, 3.3, 1000.7, 1700000000.123])
+    tock0 = rng.choice([0.1, 0.03, 0.01, 1 / 3, 0.7, 50.0, 1.1, pick(), pick() * 10])
+    tock1 = rng.choice([None, None, None, pick()])
+    n = rng.choice([1, 2, 3, 4, 6, 9])
+    m = 3 + n * rng.choice([3, 4, 6]) + rng.randint(0, 6)
+    u = math.ulp(base + n * (tock1 if tock1 is not None else tock0))      # the clock's grain around the deadlines
+    style = rng.random()
+    incs = []
+    for _ in range(m):
+        q = rng.random()
+        if style < 0.5:      # quiet clock: wake-ups land on the float deadline or a few grains beside it
+            incs.append(0.0 if q < 0.8 else rng.choice([-2, -1, 1, 1, 2, 3]) * u)
+        else:
+            incs.append(0.0 if q < 0.55 else (-pick() * rng.choice([0.1, 1]) if q < 0.7 else pick() * rng.choice([0.001, 0.01, 0.1])))
+    ovs = []
+    for _ in range(rng.randint(0, 2 * n + 1)):
+        q = rng.random()
+        if style < 0.5:
+            ovs.append(0.0 if q < 0.5 else rng.choice([-3, -2, -1, 1, 2]) * u)
+        else:
+            ovs.append(0.0 if q < 0.6 else (pick() * rng.choice([0.01, 1, 3]) if q < 0.85 else -pick() * 0.1))
+    if rng.random() < 0.4:
+        # aim: a quiet clock that starts below zero (stop - start then lies in a higher binade than stop itself, which is
+        # where `latest >= stop` and a rewrite through differences round differently); the first sleep wakes a little
+        # early, the second wake-up is put exactly on the float deadline or a grain or two beside it.
+        # readings: 2 in the constructor, timer.start, expired, remaining, sleep, expired, remaining, sleep, expired
+        base = -rng.choice(FVALS) * rng.choice([1, 0.1, 0.5])
+        tock0 = -base + rng.choice(FVALS) * rng.choice([1, 0.1, 0.5, 3])
+        tock1 = None
+        incs = [0.0] * max(m, 12)
+        ref = FRef(base, tock0)
+        ov = -tock0 * rng.choice([0.01, 0.001, 0.1])
+        c = base + (ref.stop - ref.last) + ov
+        ref.see(c)
+        ref.see(c)
+        c = c + max(0.0, ref.stop - ref.last) + 0.0
+        below = math.nextafter(ref.stop, -math.inf)
+        target = rng.choice([below, below, ref.stop, math.nextafter(below, -math.inf), math.nextafter(ref.stop, math.inf)])
+        ovs = [ov]
+        if c + (target - c) == target:
+            incs[7] = target - c
+    return ("fpace", base, tuple(incs), tuple(ovs), tock0, tock1, n)
+
+
+def wrapF(v):
+    from .. import sx
+    if isinstance(v, float):
+        return sx.F(v)
+    if isinstance(v, tuple):
+        return tuple(wrapF(x) for x in v)
+    return v
+
+
+def unwrapF(v):
+    from .. import sx
+    if isinstance(v, sx.F):
+        return v.x
+    if isinstance(v, tuple):
+        return tuple(unwrapF(x) for x in v)
+    return v
+
+
+# --------------------------------------------------------------------------
+# Timer / AsyncTimer (plain wall-clock timers, no retrograde compensation)
+#   ("ptimer", kind, base, incs, (dur, start), ops)   kind = "timer" (time.time) | "async" (event loop .time())
+#   ops: ("elapsed",) | ("remaining",) | ("expired",) | ("duration",) | ("start", dur|None, start|None) | ("restart", dur|None)
+
+def run_ptimer(case):
+    import asyncio
+    from hio.help import timing
+    _, kind, base, incs, (dur, start), ops = case
+    clock = FakeClock(base, incs)
+    out = []
+
+    class FakeLoop(asyncio.AbstractEventLoop):
+        def time(self):
+            return clock.time()
+
+    def body():
+        cls = timing.Timer if kind == "timer" else timing.AsyncTimer
+        try:
+            tm = cls(duration=un(dur), start=un(start))
+            out.append(("new", clock.i))
+            for op in ops:
+                k = op[0]
+                if k in ("elapsed", "remaining", "expired", "duration"):
+                    v = sc(getattr(tm, k))
+                elif k == "start":
+                    v = sc(tm.start(duration=un(op[1]), start=un(op[2])))
+                elif k == "restart":
+                    v = sc(tm.restart(duration=un(op[1])))
+                else:
+                    raise core.Infra(f"bad ptimer op {op!r}")
+                out.append((v, clock.i))
+        except Exhausted:
+            out.append(("exhausted",))
+
+    if kind == "timer":
+        with patched(clock):
+            body()
+    else:
+        import warnings
+        try:
+            old = None
+            asyncio.set_event_loop(FakeLoop())
+            # AsyncTimer.__init__ takes a provisional ._start from time.time() (overwritten by start()): not a script reading
+            with warnings.catch_warnings():
+                warnings.simplefilter("ignore", DeprecationWarning)
+                body()
+        finally:
+            asyncio.set_event_loop(old)
+    return tuple(out)
+
+
+def oracle_ptimer(case, obs):
+    """Timer / AsyncTimer from their documented contract: elapsed = now - start, remaining = stop - now, expired <=> now >= stop,
+    restart begins at the previous stop; on a stretch where the clock does not go backwards (the event-loop clock is
+    monotonic by contract) elapsed never decreases and expired never reverts."""
+    _, kind, base, incs, (dur, start), ops = case
+    bad = set()
+    rs = readings(base, incs)
+    if not obs or obs[0] == ("exhausted",):
+        return []
+    n0 = obs[0][1]
+    rstart = start if start is not None else (rs[n0 - 1] if n0 >= 1 else None)
+    if rstart is None:
+        return ["ptimer-no-reading-at-construction"]
+    rdur = dur
+    seen = n0
+    last_el, was_exp, mono_ok = None, False, True
+    for op, o in zip(ops, obs[1:]):
+        if o == ("exhausted",):
+            break
+        v, ni = o
+        k = op[0]
+        if ni > seen and any(rs[m] < rs[m - 1] for m in range(max(seen, 1), ni)):
+            mono_ok = False     # the clock went backwards inside this period: no monotonicity claim
+        if k == "duration":
+            if v != rdur:
+                bad.add("ptimer-duration")
+        elif k == "restart":
+            rstart = rstart + rdur
+            rdur = op[1] if op[1] is not None else rdur
+            if v != rstart:
+                bad.add("ptimer-restart-at-previous-stop")
+            last_el, was_exp, mono_ok = None, False, True
+        elif k == "start":
+            rdur = op[1] if op[1] is not None else rdur
+            rstart = op[2] if op[2] is not None else rs[ni - 1]
+            if v != rstart:
+                bad.add("ptimer-start-return")
+            last_el, was_exp, mono_ok = None, False, True
+        else:
+            now = rs[ni - 1]
+            if k == "elapsed":
+                if v != now - rstart:
+                    bad.add("ptimer-elapsed")
+                if mono_ok and last_el is not None and v < last_el:
+                    bad.add("ptimer-elapsed-decreased-on-monotonic-clock")
+                last_el = v
+            elif k == "remaining":
+                if v != rstart + rdur - now:
+                    bad.add("ptimer-remaining")
+            elif k == "expired":
+                if v is not (now >= rstart + rdur):
+                    bad.add("ptimer-expired")
+                if mono_ok and was_exp and v is False:
+                    bad.add("ptimer-expired-reverted-on-monotonic-clock")
+                was_exp = was_exp or v is True
+        seen = ni
+    return sorted(bad)
+
+
+def gen_ptimer(rng):
+    grid = rng.choice([1, 1, 32, 1024])
+    kind = rng.choice(["timer", "async", "async"])
+    base = rng.choice([0, 5 * S, 1000 * S, rng.randint(-50, 50) * grid])
+    dur = rng.choice([0, rng.randint(0, 30) * grid, rng.randint(0, 30) * grid])
+    start = None if rng.random() < 0.7 else base + rng.randint(-40, 40) * grid
+    ops = []
+    for _ in range(rng.choice([1, 2, 3, 5, 8, 12, rng.randint(0, 25)])):
+        r = rng.random()
+        if r < 0.3:
+            ops.append(("elapsed",))
+        elif r < 0.45:
+            ops.append(("remaining",))
+        elif r < 0.7:
+            ops.append(("expired",))
+        elif r < 0.76:
+            ops.append(("duration",))
+        elif r < 0.9:
+            ops.append(("restart", rng.choice([None, None, None, rng.randint(0, 30) * grid, 0])))
+        else:
+            s = None if rng.random() < 0.6 else base + rng.randint(-40, 40) * grid
+            ops.append(("start", rng.choice([None, None, rng.randint(0, 30) * grid, 0]), s))
+    need = 2 + len(ops)
+    incs = gen_incs(rng, need, grid, rng.choice(["steady", "steady", "stall", "mixed"]))
+    # put readings exactly on / beside the stop now and then (expired is `>=`)
+    if rng.random() < 0.4 and start is None and len(incs) >= 3:
+        incs[2] = dur + rng.choice([-1, 0, 1])
+    return ("ptimer", kind, base, tuple(incs), (dur, start), tuple(ops))
+
+
+def shrink_ptimer(case):
+    _, kind, base, incs, init, ops = case
+    for i in range(len(ops)):
+        yield ("ptimer", kind, base, incs, init, ops[:i] + ops[i + 1:])
+    if incs:
+        yield ("ptimer", kind, base, incs[:-1], init, ops)
+    for i in range(len(incs)):
+        if incs[i] != 0:
+            yield ("ptimer", kind, base, incs[:i] + (0,) + incs[i + 1:], init, ops)
